@@ -3,7 +3,7 @@ From Coq Require Import List ZArith Reals Lra Lia.
 From Coquelicot Require Import Coquelicot.
 From RV Require Import Common.Num Common.RealNum C02.Model C02.Spec C03.Model C16.Dual C16.GravityVar C16.GravityVarProofs
   C16.GravityVar2Proofs Gen.Derivs C16.DerivProofs C16.Deriv2Common C16.Deriv2All C16.KeplerVar C16.Link
-  C16.Rescale C16.RescaleProofs C16.WhInteraction C12.Model C16.JacobiTangent C16.Compose C03.Derivs C16.StiefelChain C16.Megno.
+  C16.Rescale C16.RescaleProofs C16.WhInteraction C12.Model C16.JacobiTangent C16.Compose C03.Derivs C16.StiefelChain C16.Megno C20.Frames C20.FrameProofs C16.ComLoop.
 Import ListNotations.
 Open Scope R_scope.
 
@@ -336,6 +336,24 @@ Theorem C16_megno_variance_increment : forall (m t : R) (n : Z), (1 <= n)%Z ->
   (n1 - 1) / n1 * (t - m') * (t - m') = ((n1 - 1) / n1) * ((n1 - 1) / n1) * ((t - m) * (t - m')).
 Proof. exact var_increment_factor. Qed.
 Print Assumptions C16_megno_variance_increment.
+
+(* ---- move_to_com with several variation sets: the first-order pass treats every configuration independently (the
+   accumulators com_shift and dm are per iteration), and each full first-order set is shifted by the first-order variation of the
+   centre of mass of the real system perturbed by THAT set (C20's one-set theorem) *)
+Theorem C16_move_to_com_sets_independent : forall (M : R) (cs : list (@cfg R)),
+  var1_pass RNum M cs = map (var1_one RNum M) cs.
+Proof. exact (var1_pass_independent RNum). Qed.
+Print Assumptions C16_move_to_com_sets_independent.
+
+Theorem C16_move_to_com_set_is_com_variation : forall (cs : list (@cfg R)) (k : nat) (l : list (R * R * R * R)),
+  nth_error cs k = Some (O1 l) ->
+  let M := Msum (l_m l) in M <> 0 ->
+  nth_error (var1_pass RNum M cs) k = Some (shift RNum (var1_shift RNum M l) (l_dq l)) /\
+  forall eps, (M + eps * Msum (l_dm l)) * (MQ (l_m l) (l_q l) / M + eps * var1_shift RNum M l)
+              - (MQ (l_m l) (l_q l) + eps * (MQ (l_m l) (l_dq l) + MQ (l_dm l) (l_q l)) + eps * eps * MQ (l_dm l) (l_dq l))
+              = eps * eps * (Msum (l_dm l) * var1_shift RNum M l - MQ (l_dm l) (l_dq l)).
+Proof. exact var1_pass_is_com_variation. Qed.
+Print Assumptions C16_move_to_com_set_is_com_variation.
 
 (* Non-vacuity: a star and two planets at distinct positions; a bound orbit meeting the constructor hypotheses *)
 Example C16_hypotheses_inhabited :
